@@ -56,6 +56,12 @@ def check_props(pid):
     res["obligations"] = len(thms)
     res["checker_cmd"] = (f"cd /verif && ./coqmake {vfile}o && cd coq && coqc -Q . V {vfile}"
                           "   (Coq 8.16.1, full .vo build of the property file and everything it depends on)")
+    # translators: regenerate coq/Generated/*.v from the sources of the tree under test (idempotent)
+    import glob as _glob, sys as _sys
+    for g in sorted(_glob.glob(os.path.join(build.VERIF, "harness", "gen_coq*.py"))):
+        rcg, outg, _ = build.run([_sys.executable, g], cwd=build.VERIF, timeout=600)
+        if rcg != 0:
+            res["failures"].append(f"translator {os.path.basename(g)} failed on the current sources: " + outg[-400:])
     ok, log = build.coq_make([vfile + "o", f"Dispatch/D{pid}.vo"])
     res["log"] = log[-4000:]
     deps = build.vo_deps(vfile)
